@@ -128,6 +128,12 @@ def inline_constants(tree):
             counts[n.name] = counts.get(n.name, 0) + 100
         elif isinstance(n, ast.arg):
             pass
+    # `NAME: Final[bytes] = <constant>` is the same binding as `NAME = <constant>` (the annotation, a pure type expression,
+    # is only recorded in `__annotations__`)
+    tree.body = [ast.copy_location(ast.Assign(targets=[st.target], value=st.value), st)
+                 if (isinstance(st, ast.AnnAssign) and isinstance(st.target, ast.Name) and st.simple and st.value is not None
+                     and _is_const_expr(st.value) and _pure_type_expr(st.annotation)) else st
+                 for st in tree.body]
     for st in tree.body:
         if isinstance(st, ast.Assign) and len(st.targets) == 1 and isinstance(st.targets[0], ast.Name):
             name = st.targets[0].id
@@ -696,6 +702,10 @@ def int_idioms(tree):
 
         def visit_BinOp(self, n):
             self.generic_visit(n)
+            # `1 << E` is `2 ** E` for a shift that cannot be negative (a constant or `8 * k` with k a loop counter)
+            if isinstance(n.op, ast.LShift) and isinstance(n.left, ast.Constant) and n.left.value == 1 and not isinstance(n.left.value, bool) \
+                    and shift_ok(n.right):
+                return ast.copy_location(ast.BinOp(left=ast.Constant(value=2), op=ast.Pow(), right=n.right), n)
             # `c | x` is `x | c` for an integer literal c (bitwise operators commute)
             if isinstance(n.op, (ast.BitOr, ast.BitAnd, ast.BitXor)) and isinstance(n.left, ast.Constant) and isinstance(n.left.value, int) \
                     and not isinstance(n.left.value, bool) and not isinstance(n.right, ast.Constant):
@@ -984,7 +994,18 @@ def restore_pinned_annotations(tree, module):
     pinned = _defs_by_qualname(ast.parse(open(path).read()))
     for q, fns in _defs_by_qualname(tree).items():
         olds = pinned.get(q)
-        if not olds or len(olds) != len(fns):
+        if not olds:
+            # a function the snapshot does not have (a new feature, a private helper): its annotations, when pure type
+            # expressions, say nothing any translator needs (a helper is inlined with the caller's argument kinds)
+            for fn in fns:
+                a = fn.args
+                cur = a.posonlyargs + a.args + a.kwonlyargs + ([a.vararg] if a.vararg else []) + ([a.kwarg] if a.kwarg else [])
+                if all(_pure_type_expr(p.annotation) for p in cur) and _pure_type_expr(fn.returns):
+                    for p in cur:
+                        p.annotation = None
+                    fn.returns = None
+            continue
+        if len(olds) != len(fns):
             continue
         for fn, old in zip(fns, olds):
             if _param_names(fn) != _param_names(old):
@@ -997,6 +1018,45 @@ def restore_pinned_annotations(tree, module):
             for p, r in zip(cur, ref):
                 p.annotation = copy.deepcopy(r.annotation)
             fn.returns = copy.deepcopy(old.returns)
+    return tree
+
+
+def drop_new_methods(tree, module):
+    """A method that the snapshot's class of the same name does not have cannot change what the existing methods do,
+    provided it is not a special method, carries only harmless decorators, and its name is neither an existing
+    method's nor that of an attribute any method of the class stores on `self` (a property of that name would
+    intercept the store).  Such methods are not read; a call of one from an existing method is a name the class
+    translator does not know and is refused there."""
+    path = os.path.join(_PINNED_DIR, module + ".py")
+    if not os.path.exists(path):
+        return tree
+    pinned = {n.name: {m.name for m in n.body if isinstance(m, ast.FunctionDef)}
+              for n in ast.parse(open(path).read()).body if isinstance(n, ast.ClassDef)}
+    for c in tree.body:
+        if not (isinstance(c, ast.ClassDef) and c.name in pinned):
+            continue
+        stored = {x.attr for x in ast.walk(c) if isinstance(x, ast.Attribute) and isinstance(x.ctx, (ast.Store, ast.Del))}
+        names = [m.name for m in c.body if isinstance(m, ast.FunctionDef)]
+        keep = []
+        for m in c.body:
+            if isinstance(m, ast.FunctionDef) and m.name not in pinned[c.name] and names.count(m.name) == 1 \
+                    and not (m.name.startswith("__") and m.name.endswith("__")) and m.name not in stored \
+                    and all(ast.unparse(d) in HARMLESS_DECORATORS for d in m.decorator_list):
+                continue
+            keep.append(m)
+        c.body = keep
+    return tree
+
+
+def local_annassign_to_assign(tree):
+    """inside a function, `x: T = e` with a pure type expression `T` is `x = e`"""
+    class T(ast.NodeTransformer):
+        def visit_AnnAssign(self, n):
+            if isinstance(n.target, ast.Name) and n.simple and n.value is not None and _pure_type_expr(n.annotation):
+                return ast.copy_location(ast.Assign(targets=[n.target], value=n.value), n)
+            return n
+    for fn in [n for n in ast.walk(tree) if isinstance(n, ast.FunctionDef)]:
+        fn.body = [T().visit(st) for st in fn.body]
     return tree
 
 
@@ -1116,34 +1176,78 @@ def housekeeping(tree, module):
                     return ast.copy_location(ast.Attribute(value=ast.Name(id="_algorithms", ctx=ast.Load()), attr="TripleDES", ctx=ast.Load()), n)
                 return n
         tree = T().visit(tree)
+    tree = drop_new_methods(tree, module)
     tree = restore_pinned_annotations(tree, module)
-    # module-level names bound to harmless values that no function / class body and no other module-level expression reads
-    read_elsewhere = set()
-    candidates = {}
-    for n in tree.body:
-        tgt = None
-        if isinstance(n, ast.Assign) and len(n.targets) == 1 and isinstance(n.targets[0], ast.Name) and _harmless_value(n.value):
-            tgt = n.targets[0].id
-        elif isinstance(n, ast.AnnAssign) and isinstance(n.target, ast.Name) and n.simple and _harmless_value(n.value) and _pure_type_expr(n.annotation):
-            tgt = n.target.id
-        if tgt is not None and not (tgt.startswith("__") and tgt.endswith("__")):
-            candidates.setdefault(tgt, []).append(n)
-        else:
-            read_elsewhere |= _loads(n)
-            if isinstance(n, (ast.FunctionDef, ast.ClassDef)):
-                # annotations and decorators are loads too (already counted by _loads)
-                pass
+    tree = local_annassign_to_assign(tree)
+    # module-level names bound to harmless values that nothing (left) reads: dropped, repeatedly, so that an alias only
+    # read by another dropped alias goes too
     bound_elsewhere = set()
     for n in ast.walk(tree):
         if isinstance(n, (ast.Global, ast.Nonlocal)):
             bound_elsewhere |= set(n.names)
-    drop = set()
-    for name, sts in candidates.items():
-        if len(sts) == 1 and name not in read_elsewhere and name not in bound_elsewhere \
-                and not any(name in _loads(x) for c, ss in candidates.items() if c != name for x in ss):
-            drop.add(id(sts[0]))
-    tree.body = [n for n in tree.body if id(n) not in drop]
+    def candidate(n):
+        if isinstance(n, ast.Assign) and len(n.targets) == 1 and isinstance(n.targets[0], ast.Name) and _harmless_value(n.value):
+            t = n.targets[0].id
+        elif isinstance(n, ast.AnnAssign) and isinstance(n.target, ast.Name) and n.simple and _harmless_value(n.value) and _pure_type_expr(n.annotation):
+            t = n.target.id
+        else:
+            return None
+        return None if (t.startswith("__") and t.endswith("__")) else t
+    while True:
+        names = [candidate(n) for n in tree.body]
+        drop = set()
+        for i, n in enumerate(tree.body):
+            t = names[i]
+            if t is None or names.count(t) != 1 or t in bound_elsewhere:
+                continue
+            if any(t in _loads(m) for j, m in enumerate(tree.body) if j != i):
+                continue
+            stores = sum(1 for x in ast.walk(tree) if isinstance(x, ast.Name) and x.id == t and isinstance(x.ctx, (ast.Store, ast.Del)))
+            if stores != 1:
+                continue
+            drop.add(i)
+        if not drop:
+            break
+        tree.body = [n for i, n in enumerate(tree.body) if i not in drop]
     return ast.fix_missing_locations(tree)
+
+
+def helper_values_to_lambdas(tree):
+    """`x = _h` where `_h` is a module-level private function whose body is a single `return <expr>` (after an optional
+    docstring) with plain positional parameters and no defaults: the *value* `_h` is `lambda params: <expr>`.  The
+    definition is dropped when no use of the name remains."""
+    helpers = {}
+    for n in tree.body:
+        if isinstance(n, ast.FunctionDef) and n.name.startswith("_") and not n.name.startswith("__") and not n.decorator_list:
+            a = n.args
+            body = [st for st in n.body if not (isinstance(st, ast.Expr) and isinstance(st.value, ast.Constant))]
+            if a.vararg or a.kwarg or a.kwonlyargs or a.posonlyargs or a.defaults or len(body) != 1 or not isinstance(body[0], ast.Return) \
+                    or body[0].value is None:
+                continue
+            helpers[n.name] = (a, body[0].value)
+    if not helpers:
+        return tree
+    counts = {}
+    for n in ast.walk(tree):
+        if isinstance(n, (ast.FunctionDef, ast.ClassDef)):
+            counts[n.name] = counts.get(n.name, 0) + 1
+        elif isinstance(n, ast.Name) and isinstance(n.ctx, (ast.Store, ast.Del)):
+            counts[n.id] = counts.get(n.id, 0) + 1
+    helpers = {k: v for k, v in helpers.items() if counts.get(k, 0) == 1}
+    class T(ast.NodeTransformer):
+        def visit_Assign(self, n):
+            if isinstance(n.value, ast.Name) and n.value.id in helpers and isinstance(n.value.ctx, ast.Load):
+                a, e = helpers[n.value.id]
+                args = ast.arguments(posonlyargs=[], args=[ast.arg(arg=p.arg) for p in a.args], kwonlyargs=[], kw_defaults=[], defaults=[])
+                n.value = ast.copy_location(ast.Lambda(args=args, body=copy.deepcopy(e)), n.value)
+            return n
+    for fn in [n for n in tree.body if isinstance(n, ast.FunctionDef) and n.name not in helpers]:
+        local = _bound_names(fn)
+        if not (set(helpers) & local):
+            T().visit(fn)
+    used = {n.id for n in ast.walk(tree) if isinstance(n, ast.Name) and isinstance(n.ctx, ast.Load)}
+    tree.body = [n for n in tree.body if not (isinstance(n, ast.FunctionDef) and n.name in helpers and n.name not in used)]
+    return tree
 
 
 def normalise_light(tree, signatures=None, aliases=None):
@@ -1155,6 +1259,7 @@ def normalise_light(tree, signatures=None, aliases=None):
     tree = ifexp_to_if(tree)
     tree = small_equivalences(tree)
     tree = swap_is_not_none(tree)
+    tree = helper_values_to_lambdas(tree)
     if signatures:
         tree = keywords_to_positional(tree, signatures, aliases or {})
     return ast.fix_missing_locations(tree)
